@@ -1,15 +1,449 @@
-// Package simnet is the in-memory network used at the net.Listen / net.Dial seams.
+// Package simnet is the in-memory network used at the net.Listen / net.Dial seams
+// (transport/mux/receiver.go, establisher.go, proxy/cluster_connection.go). Connections
+// are pairs of buffered byte pipes; every blocking operation waits on a channel or a
+// timer, which testing/synctest treats as a durable block, so the bubble's fake clock and
+// quiescence detection keep working with real yamux, TLS and gRPC on top.
+//
+// Each connection carries fault switches the world can flip: refuse at dial, reset,
+// half-close, partition (bytes stop arriving), corrupt a byte, cut after N bytes.
 package simnet
 
 import (
 	"context"
 	"errors"
+	"fmt"
+	"io"
 	"net"
+	"os"
+	"sync"
+	"sync/atomic"
 	"time"
 )
 
-var errNotImpl = errors.New("simnet: not implemented yet")
+// Addr is a simulated address.
+type Addr struct{ S string }
 
-func Listen(network, addr string) (net.Listener, error)                   { return nil, errNotImpl }
-func DialTimeout(network, addr string, d time.Duration) (net.Conn, error) { return nil, errNotImpl }
-func DialContext(ctx context.Context, addr string) (net.Conn, error)      { return nil, errNotImpl }
+func (a Addr) Network() string { return "tcp" }
+func (a Addr) String() string  { return a.S }
+
+type pipe struct {
+	mu       sync.Mutex
+	buf      []byte
+	wclosed  bool  // writer closed: reader sees EOF after draining
+	err      error // hard error for both sides (reset)
+	paused   bool  // partition: bytes are held back
+	ch       chan struct{}
+	total    int64 // bytes ever written
+	cutAt    int64 // >0: connection is reset once this many bytes have been written
+	flipAt   int64 // >0: the byte with this (1-based) index is corrupted
+	onCut    func()
+	rdl, wdl time.Time
+}
+
+func newPipe() *pipe { return &pipe{ch: make(chan struct{}, 1)} }
+
+func (p *pipe) signal() {
+	select {
+	case p.ch <- struct{}{}:
+	default:
+	}
+}
+
+// Conn is one end of a simulated connection.
+type Conn struct {
+	ID     int
+	Role   string // "dialer" or "acceptor"
+	rd, wr *pipe
+	local  Addr
+	remote Addr
+	pair   *Pair
+	mu     sync.Mutex
+	closed bool
+}
+
+// Pair is a connection with both ends, for inspection and fault injection.
+type Pair struct {
+	ID       int
+	Dialer   *Conn
+	Acceptor *Conn
+	ListenAt string
+	net      *Net
+	accepted int32 // set when the listener's Accept returned the connection
+}
+
+// Accepted reports whether the listening side has taken the connection out of its backlog.
+func (p *Pair) Accepted() bool { return atomic.LoadInt32(&p.accepted) == 1 }
+
+var errTimeout = &timeoutErr{}
+
+type timeoutErr struct{}
+
+func (*timeoutErr) Error() string   { return "i/o timeout" }
+func (*timeoutErr) Timeout() bool   { return true }
+func (*timeoutErr) Temporary() bool { return true }
+func (*timeoutErr) Is(target error) bool {
+	return target == os.ErrDeadlineExceeded
+}
+
+func (c *Conn) Read(b []byte) (int, error) {
+	p := c.rd
+	for {
+		p.mu.Lock()
+		if p.err != nil {
+			err := p.err
+			p.mu.Unlock()
+			return 0, err
+		}
+		c.mu.Lock()
+		closed := c.closed
+		c.mu.Unlock()
+		if closed {
+			p.mu.Unlock()
+			return 0, net.ErrClosed
+		}
+		if len(p.buf) > 0 && !p.paused {
+			n := copy(b, p.buf)
+			p.buf = p.buf[n:]
+			if len(p.buf) > 0 {
+				p.signal()
+			}
+			p.mu.Unlock()
+			return n, nil
+		}
+		if p.wclosed && !p.paused {
+			p.mu.Unlock()
+			return 0, io.EOF
+		}
+		dl := p.rdl
+		p.mu.Unlock()
+		if err := waitOn(p.ch, dl); err != nil {
+			return 0, err
+		}
+	}
+}
+
+func waitOn(ch chan struct{}, dl time.Time) error {
+	if dl.IsZero() {
+		<-ch
+		return nil
+	}
+	d := time.Until(dl)
+	if d <= 0 {
+		return errTimeout
+	}
+	t := time.NewTimer(d)
+	defer t.Stop()
+	select {
+	case <-ch:
+		return nil
+	case <-t.C:
+		return errTimeout
+	}
+}
+
+func (c *Conn) Write(b []byte) (int, error) {
+	c.mu.Lock()
+	closed := c.closed
+	c.mu.Unlock()
+	if closed {
+		return 0, net.ErrClosed
+	}
+	p := c.wr
+	p.mu.Lock()
+	if p.err != nil {
+		err := p.err
+		p.mu.Unlock()
+		return 0, err
+	}
+	if p.wclosed {
+		p.mu.Unlock()
+		return 0, io.ErrClosedPipe
+	}
+	data := append([]byte(nil), b...)
+	if p.flipAt > 0 && p.total < p.flipAt && p.total+int64(len(data)) >= p.flipAt {
+		data[p.flipAt-p.total-1] ^= 0x5a
+		p.flipAt = 0
+	}
+	cut := false
+	if p.cutAt > 0 && p.total+int64(len(data)) >= p.cutAt {
+		data = data[:p.cutAt-p.total]
+		cut = true
+	}
+	p.total += int64(len(data))
+	p.buf = append(p.buf, data...)
+	p.signal()
+	onCut := p.onCut
+	p.mu.Unlock()
+	if cut {
+		if onCut != nil {
+			onCut()
+		}
+		c.pair.Reset()
+		return len(data), errors.New("simnet: connection reset by peer")
+	}
+	return len(b), nil
+}
+
+// Close closes this end: the peer reads EOF after draining; local reads/writes fail.
+func (c *Conn) Close() error {
+	c.mu.Lock()
+	if c.closed {
+		c.mu.Unlock()
+		return nil
+	}
+	c.closed = true
+	c.mu.Unlock()
+	c.wr.mu.Lock()
+	c.wr.wclosed = true
+	c.wr.signal()
+	c.wr.mu.Unlock()
+	c.rd.mu.Lock()
+	c.rd.signal()
+	c.rd.mu.Unlock()
+	return nil
+}
+
+// Closed reports whether Close was called on this end.
+func (c *Conn) Closed() bool {
+	c.mu.Lock()
+	defer c.mu.Unlock()
+	return c.closed
+}
+
+// SawPeerGone reports whether this end would observe that the other end is gone (EOF or reset).
+func (c *Conn) SawPeerGone() bool {
+	c.rd.mu.Lock()
+	defer c.rd.mu.Unlock()
+	return c.rd.wclosed || c.rd.err != nil
+}
+
+func (c *Conn) LocalAddr() net.Addr  { return c.local }
+func (c *Conn) RemoteAddr() net.Addr { return c.remote }
+
+func (c *Conn) SetDeadline(t time.Time) error {
+	c.SetReadDeadline(t)
+	c.SetWriteDeadline(t)
+	return nil
+}
+func (c *Conn) SetReadDeadline(t time.Time) error {
+	c.rd.mu.Lock()
+	c.rd.rdl = t
+	c.rd.signal()
+	c.rd.mu.Unlock()
+	return nil
+}
+func (c *Conn) SetWriteDeadline(t time.Time) error { return nil }
+
+// Reset makes both ends fail with a connection-reset error.
+func (p *Pair) Reset() {
+	err := errors.New("simnet: connection reset by peer")
+	for _, pp := range []*pipe{p.Dialer.rd, p.Dialer.wr} {
+		pp.mu.Lock()
+		if pp.err == nil {
+			pp.err = err
+		}
+		pp.signal()
+		pp.mu.Unlock()
+	}
+}
+
+// Partition holds back all bytes in both directions (true) or releases them (false).
+func (p *Pair) Partition(on bool) {
+	for _, pp := range []*pipe{p.Dialer.rd, p.Dialer.wr} {
+		pp.mu.Lock()
+		pp.paused = on
+		pp.signal()
+		pp.mu.Unlock()
+	}
+}
+
+// CutAfter resets the connection once the given end has written n more bytes.
+func (p *Pair) CutAfter(end *Conn, n int64, onCut func()) {
+	end.wr.mu.Lock()
+	end.wr.cutAt = end.wr.total + n
+	end.wr.onCut = onCut
+	end.wr.mu.Unlock()
+}
+
+// FlipByte corrupts the n-th next byte written by the given end.
+func (p *Pair) FlipByte(end *Conn, n int64) {
+	end.wr.mu.Lock()
+	end.wr.flipAt = end.wr.total + n
+	end.wr.mu.Unlock()
+}
+
+// Dead reports whether nothing can flow any more.
+func (p *Pair) Dead() bool {
+	p.Dialer.rd.mu.Lock()
+	e := p.Dialer.rd.err != nil
+	p.Dialer.rd.mu.Unlock()
+	return e || (p.Dialer.Closed() && p.Acceptor.Closed())
+}
+
+// ---- listeners and the network ----
+
+type Listener struct {
+	net      *Net
+	addr     Addr
+	incoming chan *Conn
+	mu       sync.Mutex
+	closed   bool
+	done     chan struct{}
+}
+
+func (l *Listener) Accept() (net.Conn, error) {
+	select {
+	case c := <-l.incoming:
+		atomic.StoreInt32(&c.pair.accepted, 1)
+		return c, nil
+	case <-l.done:
+		return nil, net.ErrClosed
+	}
+}
+
+func (l *Listener) Close() error {
+	l.mu.Lock()
+	if !l.closed {
+		l.closed = true
+		close(l.done)
+	}
+	l.mu.Unlock()
+	l.net.mu.Lock()
+	if l.net.listeners[l.addr.S] == l {
+		delete(l.net.listeners, l.addr.S)
+	}
+	l.net.mu.Unlock()
+	return nil
+}
+
+func (l *Listener) Addr() net.Addr { return l.addr }
+
+// Pending is the number of accepted-but-not-yet-Accept()ed connections.
+func (l *Listener) Pending() int { return len(l.incoming) }
+
+// Net is one simulated network.
+type Net struct {
+	mu        sync.Mutex
+	listeners map[string]*Listener
+	pairs     []*Pair
+	nextID    int
+	nextPort  int
+	// Refuse makes dials to an address fail with "connection refused".
+	Refuse map[string]bool
+	// OnDial, if set, is told about every dial attempt (after the refuse decision).
+	OnDial func(addr string, ok bool)
+}
+
+var (
+	curMu sync.Mutex
+	cur   *Net
+)
+
+func New() *Net { return &Net{listeners: map[string]*Listener{}, Refuse: map[string]bool{}, nextPort: 40000} }
+
+// Use installs the network used by the package-level Listen/Dial functions.
+func Use(n *Net) {
+	curMu.Lock()
+	cur = n
+	curMu.Unlock()
+}
+
+func current() *Net {
+	curMu.Lock()
+	defer curMu.Unlock()
+	return cur
+}
+
+// Pairs returns every connection ever created.
+func (n *Net) Pairs() []*Pair {
+	n.mu.Lock()
+	defer n.mu.Unlock()
+	return append([]*Pair(nil), n.pairs...)
+}
+
+// SetRefuse switches dial refusal for an address.
+func (n *Net) SetRefuse(addr string, on bool) {
+	n.mu.Lock()
+	n.Refuse[addr] = on
+	n.mu.Unlock()
+}
+
+func (n *Net) Listen(addr string) (*Listener, error) {
+	n.mu.Lock()
+	defer n.mu.Unlock()
+	host, port, err := net.SplitHostPort(addr)
+	if err != nil {
+		return nil, err
+	}
+	if port == "0" {
+		n.nextPort++
+		addr = net.JoinHostPort(host, fmt.Sprint(n.nextPort))
+	}
+	if _, dup := n.listeners[addr]; dup {
+		return nil, fmt.Errorf("simnet: listen %s: address already in use", addr)
+	}
+	l := &Listener{net: n, addr: Addr{addr}, incoming: make(chan *Conn, 256), done: make(chan struct{})}
+	n.listeners[addr] = l
+	return l, nil
+}
+
+func (n *Net) Dial(addr string) (*Conn, error) {
+	n.mu.Lock()
+	l := n.listeners[addr]
+	refuse := n.Refuse[addr]
+	onDial := n.OnDial
+	if l == nil || refuse {
+		n.mu.Unlock()
+		if onDial != nil {
+			onDial(addr, false)
+		}
+		return nil, fmt.Errorf("simnet: dial %s: connection refused", addr)
+	}
+	n.nextID++
+	id := n.nextID
+	a2b, b2a := newPipe(), newPipe()
+	d := &Conn{ID: id, Role: "dialer", rd: b2a, wr: a2b, local: Addr{fmt.Sprintf("sim-d%d:1", id)}, remote: Addr{addr}}
+	a := &Conn{ID: id, Role: "acceptor", rd: a2b, wr: b2a, local: Addr{addr}, remote: d.local}
+	p := &Pair{ID: id, Dialer: d, Acceptor: a, ListenAt: addr, net: n}
+	d.pair, a.pair = p, p
+	n.pairs = append(n.pairs, p)
+	n.mu.Unlock()
+	select {
+	case l.incoming <- a:
+	default:
+		return nil, fmt.Errorf("simnet: dial %s: backlog full", addr)
+	}
+	if onDial != nil {
+		onDial(addr, true)
+	}
+	return d, nil
+}
+
+// ---- seam entry points (signatures of net.Listen, net.DialTimeout, grpc context dialer) ----
+
+func Listen(network, addr string) (net.Listener, error) {
+	n := current()
+	if n == nil {
+		return nil, errors.New("simnet: no network installed")
+	}
+	return n.Listen(addr)
+}
+
+func DialTimeout(network, addr string, d time.Duration) (net.Conn, error) {
+	n := current()
+	if n == nil {
+		return nil, errors.New("simnet: no network installed")
+	}
+	c, err := n.Dial(addr)
+	if err != nil {
+		return nil, err
+	}
+	return c, nil
+}
+
+func DialContext(ctx context.Context, addr string) (net.Conn, error) {
+	if err := ctx.Err(); err != nil {
+		return nil, err
+	}
+	return DialTimeout("tcp", addr, 0)
+}
